@@ -1,6 +1,8 @@
 import Driver.SafePtr
+import Driver.EventQueue
 
 def main (args : List String) : IO UInt32 := do
   match args with
   | ["safeptr"] => Driver.SafePtr.main; return 0
+  | ["eventqueue"] => Driver.EventQueue.main; return 0
   | _ => IO.eprintln "usage: driver <area>"; return 2
